@@ -48,13 +48,19 @@ const ATOM_CACHE_SIZE: usize = 256;
 
 #[derive(Debug, Clone)]
 pub struct AtomCache {
+    /// Atoms of the message being decoded, by position in its distribution header
+    /// (what an `ATOM_CACHE_REF` in the message's terms refers to).
     atoms: HashMap<u8, Atom>,
+    /// Entries learnt from distribution headers, keyed by segment index and internal
+    /// segment index. They persist across the messages of a connection.
+    slots: HashMap<(u8, u8), Atom>,
 }
 
 impl AtomCache {
     pub fn new() -> Self {
         Self {
             atoms: HashMap::with_capacity(ATOM_CACHE_SIZE),
+            slots: HashMap::new(),
         }
     }
 
@@ -520,6 +526,9 @@ fn parse_dist_header_with_cache<'a>(
 ) -> NomResult<'a, OwnedTerm> {
     let (input, num_atom_cache_refs) = be_u8(input)?;
 
+    // References in the terms of a message are positions in that message's own header.
+    cache.atoms.clear();
+
     if num_atom_cache_refs == 0 {
         return parse_term(input, cache);
     }
@@ -546,6 +555,7 @@ fn parse_dist_header_with_cache<'a>(
         };
 
         let is_new_entry = (flag_nibble & 0x08) != 0;
+        let segment_index = flag_nibble & 0x07;
 
         if is_new_entry {
             let (new_input, atom_len) = if long_atoms {
@@ -566,8 +576,27 @@ fn parse_dist_header_with_cache<'a>(
                 atom_str,
                 internal_segment_index
             );
-            cache.insert(internal_segment_index, Atom::new(atom_str));
+            let atom = Atom::new(atom_str);
+            cache
+                .slots
+                .insert((segment_index, internal_segment_index), atom.clone());
+            cache.atoms.insert(i, atom);
             input = new_input;
+        } else {
+            match cache.slots.get(&(segment_index, internal_segment_index)) {
+                Some(atom) => {
+                    let atom = atom.clone();
+                    cache.atoms.insert(i, atom);
+                }
+                None => {
+                    log::error!(
+                        "Distribution header refers to empty atom cache slot ({}, {})",
+                        segment_index,
+                        internal_segment_index
+                    );
+                    return Err(nom::Err::Failure(NomError::new(input, ErrorKind::Tag)));
+                }
+            }
         }
     }
 
